@@ -18,39 +18,40 @@ def c11Shared : RouteCfg :=
     regSame := true, keepsAdded := true, keepsModifiedDefault := true, keepsRemoved := true,
     userRowCanon := .keep, dfltRowCanon := .keep, keepsUnitSystem := true }
 
-/-- the present code (pinned tree + the `fix:` commits up to 2f9afcb).  `unitByDisplayStr` is
-    `false` on every route since acfd34f: the routes that send `str(units)` (pickle of an array,
-    savetxt, `Unit(str(u))`) still do, but the parser now reads `Δ°C` / `Δ°F` back; the flag stands
-    for "the string form cannot name delta_degC / delta_degF" and is probed with exactly that unit. -/
+/-- the present code: pinned tree + the `fix:` commits, including the five C11 ones
+    (fixes/C11-01…05): dimension symbols are re-interned on every restore route
+    (`_intern_dimensions` in `Unit.copy`, `Unit.__setstate__`, `_correct_old_unit_registry`,
+    `UnitRegistry.__deepcopy__` / `__setstate__`), a deep-copied registry keeps its table and its unit
+    system, derived (written-back) rows are not persisted, a unit built with explicit data is not
+    stored in the string cache.  `unitByDisplayStr` is `false` on every route since acfd34f: the
+    routes that send `str(units)` still do, but the parser reads `Δ°C` / `Δ°F` back. -/
 def c11AsIs : RouteTable := [
-  -- `(str(self.units), self.units.registry.lut)` pickled; `_correct_old_unit_registry` re-adds the
-  -- default symbols that are missing; a NEW `UnitRegistry(lut=…, add_default_symbols=False)` —
-  -- `unit_system` not passed; `Unit(str, registry=…)` recomputes the unit from the unpickled table,
-  -- whose sympy symbols are equal but not identical to the singletons
+  -- `(str(self.units), lut without derived rows)` pickled; `_correct_old_unit_registry` re-interns
+  -- every row and re-adds the default symbols that are missing; a NEW
+  -- `UnitRegistry(lut=…, add_default_symbols=False)` — `unit_system` not passed;
+  -- `Unit(str, registry=…)` recomputes the unit from that table
   (.pickleArray, { c11Shared with
       unitSame := false, unitDataCarried := false,
-      unitCanon := .lose, regSame := false, keepsRemoved := false, userRowCanon := .lose, dfltRowCanon := .lose,
+      unitCanon := .intern, regSame := false, keepsRemoved := false, userRowCanon := .intern, dfltRowCanon := .intern,
       keepsUnitSystem := false }),
-  -- default slot pickling: every slot travels, the registry object included (its `__dict__`)
+  -- default slot pickling: every slot travels, the registry object included (its `__dict__`);
+  -- `Unit.__setstate__` / `UnitRegistry.__setstate__` re-intern
   (.pickleUnit, { c11Shared with
-      unitSame := false, unitCanon := .lose, regSame := false,
-      userRowCanon := .lose, dfltRowCanon := .lose }),
+      unitSame := false, unitCanon := .intern, regSame := false,
+      userRowCanon := .intern, dfltRowCanon := .intern }),
   (.arrayCopy, c11Shared),
   (.copyCopy, c11Shared),
-  -- `Unit.copy(deep=True)`: data passed on, `deepcopy(dimensions)`; `UnitRegistry.__deepcopy__` is
-  -- `type(self)(lut=deepcopy(lut))` — `add_default_symbols` stays True, so the default rows are
-  -- written over the copy (a modified default symbol is reset, a removed one is back), no `unit_system`
+  -- `Unit.copy(deep=True)`: data passed on, dimensions re-interned; `UnitRegistry.__deepcopy__` is
+  -- `type(self)(lut=<deep copy, re-interned>, add_default_symbols=False, unit_system=self.unit_system)`
   (.deepcopyArray, { c11Shared with
-      unitSame := false, unitCanon := .lose, regSame := false,
-      keepsModifiedDefault := false, keepsRemoved := false, userRowCanon := .lose, dfltRowCanon := .intern,
-      keepsUnitSystem := false }),
-  -- `Unit.copy()`: `copy.copy(registry)` shares `lut`; `deepcopy(dimensions)`
+      unitSame := false, unitCanon := .intern, regSame := false,
+      userRowCanon := .intern, dfltRowCanon := .intern }),
+  -- `Unit.copy()`: `copy.copy(registry)` shares `lut` (whose rows `__setstate__` re-interns in place)
   (.unitCopy, { c11Shared with
-      unitSame := false, unitCanon := .lose }),
+      unitSame := false, unitCanon := .intern, userRowCanon := .intern, dfltRowCanon := .intern }),
   (.deepcopyUnit, { c11Shared with
-      unitSame := false, unitCanon := .lose, regSame := false,
-      keepsModifiedDefault := false, keepsRemoved := false, userRowCanon := .lose, dfltRowCanon := .intern,
-      keepsUnitSystem := false }),
+      unitSame := false, unitCanon := .intern, regSame := false,
+      userRowCanon := .intern, dfltRowCanon := .intern }),
   -- `str(array.units)` in a header line, `%.18e` numbers; `loadtxt` builds float arrays in the
   -- default registry
   (.saveLoadTxt, { c11Shared with
@@ -61,24 +62,12 @@ def c11AsIs : RouteTable := [
   (.unitOfStr, { c11Shared with
       unitSame := false, unitDataCarried := false,
       unitCanon := .intern }),
-  -- `to_json` writes `str(dimensions)`, `from_json` reads it back with
+  -- `to_json` writes `str(dimensions)` (derived rows left out), `from_json` reads it back with
   -- `sympify(…, locals=vars(unyt.dimensions))`: the singletons; missing defaults re-added; no `unit_system`
   (.registryJson, { c11Shared with
       unitSame := false, unitDataCarried := false, unitCanon := .intern,
       regSame := false, keepsRemoved := false, userRowCanon := .intern, dfltRowCanon := .intern,
       keepsUnitSystem := false })
 ]
-
-/-- `lose` becomes `intern` -/
-def CanonEff.reinterned (e : CanonEff) : CanonEff := if e = .lose then .intern else e
-
-/-- the code after the candidate fix (dimensions re-interned in `__setstate__`, `Unit.copy` /
-    `__deepcopy__`, the `Unit` slot state and `UnitRegistry.__deepcopy__`): every `lose` is `intern`,
-    nothing else changes -/
-def c11Reinterned : RouteTable :=
-  c11AsIs.map fun p =>
-    (p.1, { p.2 with unitCanon := CanonEff.reinterned p.2.unitCanon,
-                     userRowCanon := CanonEff.reinterned p.2.userRowCanon,
-                     dfltRowCanon := CanonEff.reinterned p.2.dfltRowCanon })
 
 end Unyt.Ref
